@@ -769,3 +769,94 @@ T('e_resources_procedure_fills_a_copy_of_the_routes_mapping', ['C11'],
             '            target[name] = source[name]\n\n\n' + _CLS),
   (R, _RESOURCES, "        route_resources = dict(getattr(route, 'resources', {}))\n"
                   "        fill_missing(route_resources, getattr(app, 'resources', {}))\n        self.resources = route_resources\n"))
+
+# ================================================================== sixth pass (round g)
+# ---- R11.f: what binding declares as provided, execute / execute_error offer (a bound route is self-contained)
+_EXEC_INJ = ("        injectables = {'_route': self,\n                       'request': request,\n"
+             "                       '_application': self.bound_apps[-1]}\n        injectables.update(self.resources)\n"
+             "        injectables.update(kwargs)\n")
+_EXEC_TAIL = "        injectables.update(self.resources)\n        injectables.update(kwargs)\n        return inject(self._execute, injectables)\n"
+_ERR_TAIL = "        injectables.update(self.resources)\n        injectables.update(kwargs)\n        return inject(self.render_error, injectables)\n"
+B('g_execute_relies_on_the_dispatchers_resources', ['C11'], 'R11.f',
+  (R, _EXEC_TAIL, "        injectables.update(kwargs)\n        return inject(self._execute, injectables)\n"))
+B('g_execute_error_drops_the_stored_resources', ['C11'], 'R11.f',
+  (R, _ERR_TAIL, "        injectables.update(kwargs)\n        return inject(self.render_error, injectables)\n"))
+B('g_execute_merges_the_last_applications_resources', ['C11'], 'R11.f',
+  (R, _EXEC_TAIL, "        injectables.update(self.bound_apps[-1].resources)\n        injectables.update(kwargs)\n"
+                  "        return inject(self._execute, injectables)\n"))
+B('g_execute_injectables_one_display_without_resources', ['C11'], 'R11.f',
+  (R, _EXEC_INJ, "        injectables = {'_route': self, 'request': request, '_application': self.bound_apps[-1], **kwargs}\n"))
+T('g_execute_resources_spread_in_the_display', ['C11'],
+  (R, _EXEC_INJ, "        injectables = {'_route': self, 'request': request, '_application': self.bound_apps[-1], **self.resources}\n"
+                 "        injectables.update(kwargs)\n"))
+T('g_execute_error_resources_through_a_named_temporary', ['C11'],
+  (R, _ERR_TAIL, "        own = self.resources\n        injectables.update(own)\n        injectables.update(kwargs)\n"
+                 "        return inject(self.render_error, injectables)\n"))
+T('g_execute_builtins_display_overlaid_by_dict_call', ['C11'],
+  (R, _EXEC_INJ, "        injectables = dict({'_route': self, 'request': request, '_application': self.bound_apps[-1]}, **self.resources)\n"
+                 "        injectables.update(kwargs)\n"))
+T('g_declared_names_from_a_local_that_is_the_attribute', ['C11'],
+  (R, "                            'resources': set(self.resources)}\n", "                            'resources': set(self.resources.keys())}\n"))
+
+# ---- R11.e: on a re-bind the choice between the application's value and the route's is this binding's (flag / application)
+_RE_SEL = ("        if rebind_render_error:\n            render_error = getattr(app.error_handler, 'render_error', None)\n"
+           "        else:\n            render_error = route.render_error\n")
+_SLASH_SEL = '        self.slash_mode = app.slash_mode if inherit_slashes else route.slash_mode\n'
+B('g_render_error_kept_when_the_route_has_a_callable_one', ['C11'], 'R11.e',
+  (R, _RE_SEL, "        if rebind_render_error and not callable(route.render_error):\n"
+               "            render_error = getattr(app.error_handler, 'render_error', None)\n"
+               "        else:\n            render_error = route.render_error\n"))
+B('g_render_error_own_value_tested_through_a_local_guard', ['C11'], 'R11.e',
+  (R, _RE_SEL, "        own_render_error = getattr(route, 'render_error', None)\n        has_own = own_render_error is not None\n"
+               "        if has_own or not rebind_render_error:\n            render_error = route.render_error\n"
+               "        else:\n            render_error = getattr(app.error_handler, 'render_error', None)\n"))
+B('g_render_error_rebound_on_the_first_bind_only', ['C11'], 'R11.e',
+  (R, _RE_SEL, "        if rebind_render_error and not hasattr(route, 'bound_apps'):\n"
+               "            render_error = getattr(app.error_handler, 'render_error', None)\n"
+               "        else:\n            render_error = route.render_error\n"))
+B('g_slash_mode_inherited_only_while_the_route_has_the_default', ['C11'], 'R11.e',
+  (R, _SLASH_SEL, '        if inherit_slashes and route.slash_mode == S_REDIRECT:\n            self.slash_mode = app.slash_mode\n'
+                  '        else:\n            self.slash_mode = route.slash_mode\n'))
+T('g_render_error_choice_by_inverted_flag', ['C11'],
+  (R, _RE_SEL, "        keep_own = not rebind_render_error\n        if keep_own:\n            render_error = route.render_error\n"
+               "        else:\n            render_error = getattr(app.error_handler, 'render_error', None)\n"))
+T('g_slash_mode_choice_spelled_out', ['C11'],
+  (R, _SLASH_SEL, '        if not inherit_slashes:\n            self.slash_mode = route.slash_mode\n'
+                  '        else:\n            self.slash_mode = app.slash_mode\n'))
+
+# ---- R10.c: dispatch decides the slash handling with the mode of the route it is handling
+_D_REDIRECT = '                    if route.slash_mode == S_REDIRECT:\n'
+_D_STRICT = '                    elif route.slash_mode == S_STRICT:\n'
+_D_HEAD = '        err_handler = self.error_handler\n'
+B('g_dispatch_redirects_by_the_applications_mode', ['C10'], 'R10.c',
+  (A, _D_REDIRECT, '                    if self.slash_mode == S_REDIRECT:\n'))
+B('g_dispatch_strict_by_the_outermost_applications_mode', ['C10'], 'R10.c',
+  (A, _D_STRICT, '                    elif route.bound_apps[-1].slash_mode == S_STRICT:\n'))
+B('g_dispatch_mode_hoisted_out_of_the_route_loop', ['C10'], 'R10.c',
+  (A, _D_HEAD, _D_HEAD + '        mode = self.slash_mode\n'),
+  (A, _D_REDIRECT, '                    if mode == S_REDIRECT:\n'),
+  (A, _D_STRICT, '                    elif mode == S_STRICT:\n'))
+B('g_dispatch_mode_of_the_unbound_route', ['C10'], 'R10.c',
+  (A, _D_STRICT, '                    elif route.unbound_route.slash_mode == S_STRICT:\n'))
+T('g_dispatch_mode_of_the_route_named_once', ['C10'],
+  (A, _D_REDIRECT, '                    mode = route.slash_mode\n                    if mode == S_REDIRECT:\n'),
+  (A, _D_STRICT, '                    elif mode == S_STRICT:\n'))
+T('g_dispatch_mode_through_an_alias_of_the_route', ['C10'],
+  (A, _D_REDIRECT, '                    handled = route\n                    if handled.slash_mode == S_REDIRECT:\n'))
+
+# ---- R10.e: the stand-in the first bind stores when no factory interpreted the render argument is the marker the next bind tests
+_CARRY = '            render = route.render if callable(route.render) else _noop_render\n'
+_NOOP_DEF = 'def _noop_render(context):\n    return context\n'
+B('g_standin_render_made_by_a_private_factory', ['C10'], 'R10.e',
+  (R, _NOOP_DEF, _NOOP_DEF + '\n\ndef _pending_render(arg):\n    def pending(context):\n'
+                             "        raise TypeError('no render function for %r' % (arg,))\n    return pending\n"),
+  (R, _CARRY, '            if callable(route.render):\n                render = route.render\n            elif unbound_route.render is None:\n'
+              '                render = _noop_render\n            else:\n                render = _pending_render(unbound_route.render)\n'))
+B('g_standin_render_is_a_lambda_per_binding', ['C10'], 'R10.e',
+  (R, _CARRY, '            render = route.render if callable(route.render) else (lambda context: context)\n'))
+B('g_standin_render_made_by_a_private_lambda_factory', ['C10'], 'R10.e',
+  (R, _NOOP_DEF, _NOOP_DEF + '\n\ndef _passthrough_for(arg):\n    if arg is None:\n        return lambda context: context\n'
+                             '    return lambda context: context\n'),
+  (R, _CARRY, '            render = route.render if callable(route.render) else _passthrough_for(unbound_route.render)\n'))
+T('g_standin_render_marker_through_a_named_temporary', ['C10'],
+  (R, _CARRY, '            fallback = _noop_render\n            render = route.render if callable(route.render) else fallback\n'))
